@@ -33,7 +33,9 @@
 EXTENDS Naturals, Sequences, FiniteSets
 
 CONSTANTS Ages, MacKinds, NonceKinds,            \* semantic domains for structurally clean headers
-          ShKids, ShAges, ShMacs, ShNonces       \* semantic domains combined with every structural fault combination
+          ShKids, ShAges, ShMacs, ShNonces,      \* semantic domains combined with every structural fault combination
+          Dev_GateEmptyIsAbsent                  \* known deviation of proxy_proof_gate: `if not raw` treats a header that is
+                                                 \* present with an empty value like an absent one (FALSE = intended design)
 
 AllAges   == {"gtP", "eqP", "ltP", "zero", "ltN", "eqN", "gtN"}
 AllMacs   == {"ok", "key", "origin", "tamper", "frame", "noncanon"}
@@ -104,7 +106,11 @@ FirstFailing(c) == IF \E i \in 1..9 : Must(c)[i] THEN CHOOSE i \in 1..9 : Must(c
 
 Expected(c) == [adm |-> Admissible(c), step |-> FirstFailing(c)]
 
+\* what the gate (as opposed to verify_proof) reports; differs from the table only under the named deviation
+GateTable(c) == IF Dev_GateEmptyIsAbsent /\ c.hdr = "empty" THEN {"no_proof"} ELSE Admissible(c)
+
 \* ------------------------------------------------------------------ table sanity (TLC checks each on every case)
+GateFollowsTable(c) == GateTable(c) \subseteq Admissible(c)     \* holds for the intended design, refuted with Dev_... = TRUE
 Total(c)            == Admissible(c) # {} /\ Admissible(c) \subseteq (Reasons \cup {"ok"})
 Deterministic(c)    == (c.mac # "noncanon" /\ c.nonce # "seen_edge") => Cardinality(Admissible(c)) = 1
 AcceptOnlyClean(c)  == "ok" \in Admissible(c) =>
